@@ -120,7 +120,7 @@ func superviseChild(c *core.Ctx, file string, from, total int) (int, bool) {
 	cur := from - 1 // history in progress
 	done := from    // first history not finished
 	pending := ""
-	timeout := 12 * time.Second
+	timeout := 45 * time.Second
 	timer := time.NewTimer(timeout)
 	defer timer.Stop()
 	outcome := "exit"
@@ -252,6 +252,23 @@ func newHistory(c *core.Ctx, start *core.N) *history {
 	return &history{c: c, start: start.Dump(), t: t, cur: n}
 }
 
+// renumber gives the branches ids 0,1,2… in the pre-order of the α walk (public API only).
+func renumber(t *tree.Tree) {
+	id := 0
+	var rec func(cur, prev *tree.Node)
+	rec = func(cur, prev *tree.Node) {
+		for i, nb := range cur.Neigh() {
+			if nb == prev {
+				continue
+			}
+			cur.Edges()[i].SetId(id)
+			id++
+			rec(nb, cur)
+		}
+	}
+	rec(t.Root(), nil)
+}
+
 // step runs one operation; false = the history ends here.
 func (h *history) step(op string) bool {
 	c := h.c
@@ -290,5 +307,10 @@ func (h *history) step(op string) bool {
 	h.cur = n
 	o := observe(res)
 	c.Emit(stepOp, h.start, opsField, k, before, "ok", "", n.Dump(), o.nodes, o.tips, o.edges, o.internal, o.tipEdges, core.Escape(o.newick), extra)
+	// Branch ids are user data that no edit reads; numbering the branches afresh (pre-order, as the
+	// Newick parser does) between two steps keeps them pairwise distinct, which the id-addressed
+	// contraction model of C07 needs for the exact tie of the next step.
+	renumber(res)
+	core.NumberEdges(h.cur)
 	return true
 }
